@@ -88,6 +88,12 @@ def _cfield(f):
     return None
 
 
+def _unz(v):
+    while isinstance(v, tuple) and v and v[0] == "zext":
+        v = v[1]
+    return v
+
+
 def _canon_ite(t):
     """conditional values with a closed arithmetic meaning"""
     _, c, a, b = t
@@ -102,6 +108,18 @@ def _canon_ite(t):
                 av = av[1]
             if av[0] == "fld" and av[2] == 0 and av[1][0] == "dc" and av[1][2] == 1 and av[1][1] == chk:
                 return ("saturating", "Sub", chk[2], chk[3])
+            if av[0] == "bin" and av[1] in ("Sub", "SubUnchecked") and (av[2], av[3]) == (chk[2][0], chk[2][1]):
+                # the payload already folded to x - y (project1)
+                return ("saturating", "Sub", chk[2], chk[3])
+    # if x < y { x } else { y }  ==  min(x, y)   (and the mirrored / non-strict spellings)
+    if c[0] == "cmp" and c[1] in ("Lt", "Le", "Gt", "Ge"):
+        x, y = c[2], c[3]
+        sx, sy, sa, sb = (_unz(v) for v in (x, y, a, b))
+        if {sa, sb} == {sx, sy} and sa != sb:
+            small_first = c[1] in ("Lt", "Le")
+            # cond true selects a: a is the smaller iff (x<y and a==x) or (x>y and a==y)
+            a_is_min = (sa == sx) == small_first
+            return ("min", x, y) if a_is_min else ("max", x, y)
     # if x < y { 0 } else { x - y }  /  if x >= y { x - y } else { 0 }
     if c[0] == "cmp" and c[1] in ("Lt", "Ge", "Le", "Gt"):
         x, y = c[2], c[3]
@@ -238,7 +256,8 @@ class TB:
                 if st["k"] != "assign":
                     continue
                 rv = st["rv"]
-                if rv["k"] == "use":
+                if rv["k"] == "use" or rv["k"] == "cast" and str(rv.get("ck", "")).startswith("PointerCoercion(Unsize"):
+                    # a moved / copied reference, or the same reference unsized (`&mut [u8; 4]` -> `&mut [u8]`)
                     op = rv["op"]
                     pl = op.get("c") or op.get("m")
                     if pl and not pl.get("p"):
@@ -459,7 +478,8 @@ class TB:
         def nearest(bb):
             for (d, s_, lab) in g.dominating_edges(bb):
                 if b.term(d)["k"] == "switch":      # assertions on the way (overflow checks) are not the choice between the two values
-                    return d, g.edge_facts(d, s_, lab)
+                    c_ = g.edge_condition(d, s_, lab)
+                    return d, ([c_] if c_ is not None else [])
             return None, []
         n1, f1 = nearest(d1[1])
         n2, f2 = nearest(d2[1])
@@ -628,6 +648,11 @@ class TB:
         if op in ("Sub", "SubUnchecked") and a[0] == "max" and (a[1] == b or a[2] == b):
             # max(x, y) - y  ==  x.saturating_sub(y)
             return ("saturating", "Sub", (a[2] if a[1] == b else a[1], b), aty)
+        if op in ("Sub", "SubUnchecked") and b[0] == "bin" and b[1] in ("Mul", "MulUnchecked") and (aty is None or is_uint(aty)):
+            # a - (a / d) * d  ==  a % d   (unsigned; d != 0 on every path that evaluated a / d)
+            for q, d in ((b[2], b[3]), (b[3], b[2])):
+                if q[0] == "bin" and q[1] == "Div" and q[2] == a and q[3] == d:
+                    return ("bin", "Rem", a, d, aty)
         if a[0] == "c" and b[0] == "c":
             x, y = a[1], b[1]
             bits = INT_BITS.get(aty, 64)
